@@ -11,6 +11,7 @@ import (
 func runC10(c *Ctx, r *Report) {
 	r.Rule("C10.R1", "transient state is restored on the panic path: every field of eval.State that some function overwrites, re-enters the evaluator, and writes again (a swap around evaluation: scope, output writer, depth, pipe value) is reset by State.Reset, by EvalOne's recover block, or restored by a defer in that function")
 	r.Rule("C10.R2", "transient state is restored on the error path: from the first write of such a field every path to a return passes the restoring write")
+	r.Rule("C10.R4", "a reset is independent of what it discards: the value State.Reset writes into a field is not computed from any field that Reset itself rewrites (the session scope comes from a field set at creation, not from the current scope)")
 	r.Rule("C10.R3", "fresh context per input: EvalOne installs a new context and defers its cancel before evaluating (shared with C09.R5)")
 	r.Rule("C04.R1", "(shared) failed calls leave nothing in the function cache: Cache.Set is confined to non-error results")
 	r.Rule("C05.R1", "(shared) registers acquired on the session environment are released on every exit, including panics (defer)")
@@ -80,6 +81,68 @@ func runC10(c *Ctx, r *Report) {
 			}
 		}
 	})
+	// R4: what a reset writes does not depend on the transient state it is discarding
+	{
+		resetFns := []*ssa.Function{c.SSAFn(c.Fn("eval", "State.Reset"))}
+		nR4 := 0
+		for _, rf := range resetFns {
+			written := map[int]bool{}
+			eachInstr(rf, func(in ssa.Instruction) {
+				if s, ok := in.(*ssa.Store); ok {
+					if fa, ok := s.Addr.(*ssa.FieldAddr); ok {
+						if n := namedStruct(fa.X.Type()); n != nil && n.Obj() == stateT.Obj() {
+							written[fa.Field] = true
+						}
+					}
+				}
+			})
+			eachInstr(rf, func(in ssa.Instruction) {
+				s, ok := in.(*ssa.Store)
+				if !ok {
+					return
+				}
+				fa, ok := s.Addr.(*ssa.FieldAddr)
+				if !ok {
+					return
+				}
+				if n := namedStruct(fa.X.Type()); n == nil || n.Obj() != stateT.Obj() {
+					return
+				}
+				nR4++
+				// backward slice of the stored value
+				var dep []string
+				seen := map[ssa.Value]bool{}
+				var walk func(v ssa.Value)
+				walk = func(v ssa.Value) {
+					if v == nil || seen[v] {
+						return
+					}
+					seen[v] = true
+					if ld, ok := v.(*ssa.UnOp); ok {
+						if lfa, ok := ld.X.(*ssa.FieldAddr); ok {
+							if n := namedStruct(lfa.X.Type()); n != nil && n.Obj() == stateT.Obj() && written[lfa.Field] {
+								dep = append(dep, st.Field(lfa.Field).Name())
+							}
+						}
+					}
+					if x, ok := v.(ssa.Instruction); ok {
+						for _, op := range x.Operands(nil) {
+							if *op != nil {
+								walk(*op)
+							}
+						}
+					}
+				}
+				walk(s.Val)
+				sort.Strings(dep)
+				r.Check(len(dep) == 0, "C10.R4", ssaFuncName(rf), "reset value of "+st.Field(fa.Field).Name()+" is independent of the discarded state", c.Pos(s.Pos()),
+					fmt.Sprintf("the value written to %s is computed from %v, fields this very reset discards: after a panic they describe the failed evaluation (a scope deep inside a library function, whose chain of enclosing scopes need not end at the session's), so the failure leaves a trace", st.Field(fa.Field).Name(), dep))
+			})
+		}
+		if nR4 < 3 {
+			r.Undecided("C10.R4: only %d field writes found in State.Reset", nR4)
+		}
+	}
 	// SetContext (called at the start of every input) re-initialises these
 	collect(c.SSAFn(c.Fn("eval", "State.SetContext")), "SetContext (every input)")
 
@@ -190,6 +253,7 @@ func runC10(c *Ctx, r *Report) {
 	// R3 (shared with C09.R5)
 	{
 		sub := NewReport("C09", r.Tier, c)
+		sub.Sub = true
 		runC09(c, sub)
 		for _, o := range sub.Obls {
 			if o.Rule != "C09.R5" {
@@ -208,6 +272,7 @@ func runC10(c *Ctx, r *Report) {
 		run        func(*Ctx, *Report)
 	}{{"C04", "C04.R1", runC04}, {"C05", "C05.R1", runC05}} {
 		sub := NewReport(sh.prop, r.Tier, c)
+		sub.Sub = true
 		sh.run(c, sub)
 		for _, o := range sub.Obls {
 			if o.Rule != sh.rule {
